@@ -193,6 +193,9 @@ func deploymentExposure(w *World, sc *Scenario, d *apps.Deployment) (int, string
 		ms := 0
 		if d.Spec.Strategy.RollingUpdate != nil && d.Spec.Strategy.RollingUpdate.MaxSurge != nil {
 			ms, _ = intstr.GetScaledValueFromIntOrPercent(d.Spec.Strategy.RollingUpdate.MaxSurge, replicas, true)
+			if ms > replicas {
+				ms = replicas // the new ReplicaSet never grows beyond spec.replicas, whatever the surge allows
+			}
 			return ms, "maxSurge=" + d.Spec.Strategy.RollingUpdate.MaxSurge.String()
 		}
 		return replicas, "no maxSurge"
@@ -310,6 +313,9 @@ func exposureOfDeployment(sc *Scenario, d *apps.Deployment) int {
 		}
 		if d.Spec.Strategy.RollingUpdate != nil && d.Spec.Strategy.RollingUpdate.MaxSurge != nil {
 			ms, _ := intstr.GetScaledValueFromIntOrPercent(d.Spec.Strategy.RollingUpdate.MaxSurge, replicas, true)
+			if ms > replicas {
+				ms = replicas // the new ReplicaSet never grows beyond spec.replicas, whatever the surge allows
+			}
 			return ms
 		}
 		return replicas
